@@ -206,6 +206,60 @@ def run(ctx):
             if idx == 3:
                 ctx.sample({'kind': 'text', 'mode': mode, 'actual': sa, 'reference': se, 'opts': o,
                             'outcome': got, 'files_written': files})
+        # ------------------------------------------------ the actual file itself lives in the temporary directory
+        # (a program under test that writes its output there), under names like the ones the library uses
+        nt = 120 if ctx.quick else 2500
+        for it in range(nt):
+            A, E = T.gen_pair(rng)
+            o = T.gen_opts(rng)
+            sa, se = join_text(rng, A), join_text(rng, E)
+            refname = rng.choice(['ref.txt', 'expected.txt', 'r'])
+            aname = rng.choice(['out.txt', 'actual-' + refname, 'actual-raw-' + refname, 'expected-' + refname, refname])
+            refp = os.path.join(data, refname)
+            actp = os.path.join(tmp, aname)
+            with open(refp, 'w', encoding='utf-8', newline='') as f:
+                f.write(se)
+            with open(actp, 'w', encoding='utf-8', newline='') as f:
+                f.write(sa)
+            kw = dict(lstrip=o['lstrip'], rstrip=o['rstrip'], ignore_substrings=o['ignore_substrings'] or None,
+                      ignore_patterns=o['ignore_patterns'] or None, remove_lines=o['remove_lines'] or None,
+                      preprocess=T.PREPROCESS[o.get('preprocess')],
+                      max_permutation_cases=o['max_permutation_cases'])
+            case = {'kind': 'actual-in-tmp', 'actual_name': aname, 'reference_name': refname,
+                    'actual': sa, 'reference': se, 'opts': o}
+            ctx.count(('TT', repr(case)), sa != se)
+            try:
+                rt.assertTextFileCorrect(actp, refp, **kw)
+                got, msg = 'pass', ''
+            except Failed as ex:
+                got, msg = 'fail', str(ex)
+            except RecursionError:
+                got, msg = 'diverge', ''
+            ctx.bump('actual_in_tmp.' + got)
+            written = sorted(set(os.listdir(tmp)) - {aname})
+            if got == 'pass' and written:
+                ctx.fail(case, 'passing assertion wrote %r' % written)
+            if got == 'fail':
+                pairs = parse_pairs(msg)
+                raw = [p_ for p_ in pairs if p_[0] in ('', 'raw')]
+                if not raw:
+                    ctx.fail(case, 'failure message names no comparison of the actual content with the reference')
+                elif raw[0][1] != actp or raw[0][2] != refp:
+                    ctx.fail(case, 'message names %s %s instead of %s %s' % (raw[0][1], raw[0][2], actp, refp))
+                for q, fa, fb in pairs:
+                    for p_ in (fa, fb):
+                        if not os.path.exists(p_):
+                            ctx.fail(case, 'message names %s which does not exist' % p_)
+            if got != 'diverge':
+                now = open(actp, encoding='utf-8', newline='').read() if os.path.exists(actp) else None
+                if now != sa:
+                    ctx.fail(case, 'after the assertion the file given as actual (%s, in the temporary directory) holds %r, '
+                             'the actual content was %r' % (aname, now, sa))
+                if open(refp, encoding='utf-8', newline='').read() != se:
+                    ctx.fail(case, 'the reference file was changed')
+            for f in os.listdir(tmp):
+                os.remove(os.path.join(tmp, f))
+            os.remove(refp)
         # ------------------------------------------------ several files in one assertion
         nm = 150 if ctx.quick else 3000
         for it in range(nm):
